@@ -148,7 +148,7 @@ def run(ctx):
             if case is None:
                 ctx.note("build-failed:" + triple[0])
                 continue
-            check_case(ctx, case)
+            ctx.guard(check_case, case)
             made += 1
             if made >= per:
                 break
